@@ -750,6 +750,75 @@ theorem prefetch_excludes_barred (P : Params) (cfg : List Key) (d : Disk) (live 
         | cons a b => rfl
       simpa [this] using hrun
 
+/-! ## the trust set of a starting process -/
+
+/-- **startup_excludes_barred.** `NewResolver` (any disk, any configuration): a
+key whose revocation is on record — tombstone, or `StateRevoked`/`StateRemoved`
+marker — is not in the trust set a new process starts with; a tombstone store
+that does not decode leaves it empty; a configured key carrying the REVOKE bit
+is never in it. No read assumption: this is the set validation uses before the
+first refresh. -/
+theorem startup_excludes_barred (cfg : List Key) (d : Disk) (m : Nat) (hb : Barred d m) :
+    ∀ k ∈ startupKeys cfg d, k.mat ≠ m ∧ k.revoke = false := by
+  intro k hk
+  unfold startupKeys at hk
+  rcases hb with hc | ⟨ms, hms, hm⟩ | ⟨tas, htas, ta, hta, hmat, hmark⟩
+  · cases htomb : d.tomb <;> simp_all [FileC.undecodable]
+  · simp only [hms] at hk
+    obtain ⟨_, h2⟩ := List.mem_filter.mp hk
+    simp only [Bool.not_eq_eq_eq_not, Bool.not_true, Bool.or_eq_false_iff] at h2
+    refine ⟨fun h => ?_, h2.2⟩
+    have h3 := h2.1
+    simp only [List.contains_eq_mem, List.mem_append, decide_eq_false_iff_not, not_or] at h3
+    exact h3.1 (h ▸ hm)
+  · have hmk : m ∈ (tas.filter (fun ta => isMarker ta.st)).map (·.key.mat) :=
+      List.mem_map.mpr ⟨ta, List.mem_filter.mpr ⟨hta, hmark⟩, hmat⟩
+    simp only [htas] at hk
+    cases htomb : d.tomb with
+    | empty => simp [htomb] at hk
+    | corrupt => simp [htomb] at hk
+    | absent =>
+      simp only [htomb] at hk
+      obtain ⟨_, h2⟩ := List.mem_filter.mp hk
+      simp only [Bool.not_eq_eq_eq_not, Bool.not_true, Bool.or_eq_false_iff] at h2
+      refine ⟨fun h => ?_, h2.2⟩
+      have h3 := h2.1
+      simp only [List.contains_eq_mem, decide_eq_false_iff_not] at h3
+      exact h3 (h ▸ hmk)
+    | ok ms =>
+      simp only [htomb] at hk
+      obtain ⟨_, h2⟩ := List.mem_filter.mp hk
+      simp only [Bool.not_eq_eq_eq_not, Bool.not_true, Bool.or_eq_false_iff] at h2
+      refine ⟨fun h => ?_, h2.2⟩
+      have h3 := h2.1
+      simp only [List.contains_eq_mem, List.mem_append, decide_eq_false_iff_not, not_or] at h3
+      exact h3.2 (h ▸ hmk)
+
+/-- **tombstone_permanent from process start.** Once a revocation is on record,
+the trust set of every process started afterwards — before its first refresh,
+while it primes and answers queries — has no key of that material (histories as
+in `tombstone_permanent_partial`). -/
+theorem tombstone_permanent_from_process_start (P : Params) (cfg : List Key) (s : Sys) (evs : List Ev) (m : Nat)
+    (hb : Barred s.disk m) (hok : HistOK P cfg s evs) :
+    ∀ live, (runHist P cfg s (evs ++ [.boot])).proc = some live → ∀ k ∈ live, k.mat ≠ m := by
+  have hb' := barred_monotone P cfg s evs m hok hb
+  intro live hl k hk
+  have hrun : runHist P cfg s (evs ++ [.boot]) = step P cfg (runHist P cfg s evs) .boot := by simp [runHist]
+  rw [hrun] at hl
+  simp only [step, Option.some.injEq] at hl
+  subst hl
+  exact (startup_excludes_barred cfg _ m hb' k hk).1
+
+/-- ... so from process start on a revoked key validates nothing: a response
+validates in the new process only through a live key of other material. -/
+theorem revoked_key_never_validates_from_start (P : Params) (cfg : List Key) (s : Sys) (evs : List Ev) (m : Nat)
+    (hb : Barred s.disk m) (hok : HistOK P cfg s evs)
+    (live : List Key) (hl : (runHist P cfg s (evs ++ [.boot])).proc = some live)
+    (g : Fetch) (hv : validates live g = true) (hne : g.keys ≠ []) :
+    ∃ k ∈ live, k.mat ≠ m ∧ signedBy g.signers k = true := by
+  obtain ⟨k, hk, _, hs⟩ := (validation_needs_live_signature live g hv).1 hne
+  exact ⟨k, hk, tombstone_permanent_from_process_start P cfg s evs m hb hok live hl k hk, hs⟩
+
 /-! ## the add hold-down over histories -/
 
 /-- the invariant is preserved by every event (given no pending-tag collision). -/
@@ -765,7 +834,7 @@ theorem step_holdInv (P : Params) (hP : thirtyDays ≤ P.addHold) (cfg : List Ke
     intro l hl k hk
     simp only [step, Option.some.injEq] at hl
     subst hl
-    exact Or.inl hk
+    exact Or.inl (startupKeys_sub cfg s.disk k hk)
   | damage dm =>
     cases dm with
     | tomb => exact ⟨hinv.disk, hinv.live, hinv.clock⟩
@@ -777,7 +846,7 @@ theorem step_holdInv (P : Params) (hP : thirtyDays ≤ P.addHold) (cfg : List Ke
       intro k hk
       unfold startLive at hk
       cases hp : s.proc with
-      | none => rw [hp] at hk; exact Or.inl hk
+      | none => rw [hp] at hk; exact Or.inl (startupKeys_sub cfg s.disk k hk)
       | some l => rw [hp] at hk; exact hinv.live l hp k hk
     rw [step_run_eq]
     rcases autoTA_inv P cfg s.disk (startLive cfg s) f fl s.now with ⟨hw, _, ha, hl⟩ | ⟨tomb0, f', a, hrt, hf, _, hane, heq⟩
@@ -1183,5 +1252,18 @@ example : validates [] { keys := [kA, kB], signers := [kA, kB] } = false := vali
 -- prefetch_publication: fail-closed mode (live = []) publishes nothing before the fetch
 example : (autoTA {} [kA, kB] {} [] (some revokeA) {} 0).pre = some [] := by decide
 example : (autoTA {} [kA, kB] { tomb := .ok [1] } [kA, kB] none {} 0).pre = some [kB] := by decide
+
+-- startup: revocation of kA tombstoned, restart, NewResolver: kA is not trusted before the first refresh,
+-- and a response signed by kA alone does not validate (before /repo 24304ea: `some [kA, kB]`, validated)
+example : (runHist {} [kA, kB] {} [.run (some revokeA) {} none, .restart, .boot]).proc = some [kB] := by decide
+example : validates [kB] { keys := [kA, kB], signers := [kA] } = false := by decide
+example : ∀ k ∈ [kB], k.mat ≠ 1 :=
+  tombstone_permanent_from_process_start {} [kA, kB] (runHist {} [kA, kB] {} [.run (some revokeA) {} none]) [.restart] 1
+    (Or.inr (Or.inl ⟨[1], by decide, by decide⟩)) ⟨trivial, trivial⟩ [kB] (by decide)
+-- every configured key barred: the process starts fail closed and the pre-fetch publication is skipped
+example : (autoTA {} [kA] { tomb := .ok [1] } (startupKeys [kA] { tomb := .ok [1] }) none {} 0).pre = some [] := by decide
+-- marker-only record and zero-length store at start
+example : startupKeys [kA, kB] { state := .ok [⟨kA, .revoked, 0⟩] } = [kB] := by decide
+example : startupKeys [kA, kB] { tomb := .empty } = [] := by decide
 
 end SdnsVerif.Props.C09
